@@ -102,15 +102,17 @@ SumRecs(S, f) == IF S = {} THEN 0
                       IN (IF f = "series" THEN r.series ELSE r.total) + SumRecs(S \ {r}, f)
 NoLegitRelief(i) ==
   \A k \in Sh(i) : InSync(i, k) =>
-     LET bigP == {r \in RepRecs(i, k) : r.total > i.opts.maxProc}
-         bigH == {r \in RepRecs(i, k) : r.series > i.opts.maxHead}
+     \* (only targets that are still discovered: what a shard still carries of a target that has just left
+     \* discovery is ordinary stale load, whatever the size of that target was)
+     LET bigP == {r \in RepRecs(i, k) : r.total > i.opts.maxProc /\ r.t \in ActiveSet(i)}
+         bigH == {r \in RepRecs(i, k) : r.series > i.opts.maxHead /\ r.t \in ActiveSet(i)}
      IN /\ \/ i.shards[k].proc < i.opts.maxProc
            \/ bigP # {} /\ i.shards[k].proc - SumRecs(bigP, "total") < i.opts.maxProc
         /\ \/ i.opts.maxHead = 0
            \/ i.shards[k].head * 10 < i.opts.maxHead * 11
            \/ bigH # {} /\ (i.shards[k].head - SumRecs(bigH, "series")) * 10 < i.opts.maxHead * 11
 AnyOversizedReported(i) ==
-  \E k \in Sh(i) : \E r \in RepRecs(i, k) : r.total > i.opts.maxProc \/ (i.opts.maxHead # 0 /\ r.series > i.opts.maxHead)
+  \E k \in Sh(i) : \E r \in RepRecs(i, k) : r.t \in ActiveSet(i) /\ (r.total > i.opts.maxProc \/ (i.opts.maxHead # 0 /\ r.series > i.opts.maxHead))
 C04_OversizedScaleUp(i, o) ==
   /\ \A k \in Sh(i) : InSync(i, k)
   /\ NoLegitRelief(i)
